@@ -699,7 +699,9 @@ func buildSeq(dg []int) []seqPkt {
 		room := 184
 		switch kind {
 		case 1: // adaptation field only
-			p.HasPL, p.HasAF, p.AF = false, true, &ref.AF{Stuffing: 182}
+			// (the symbol's unit-start bit has no meaning for a packet without payload: it selects the variant that carries
+			// discontinuity_indicator - a time-base discontinuity announced on a packet that is in no unit)
+			p.HasPL, p.HasAF, p.AF = false, true, &ref.AF{Stuffing: 182, Disc: pusi}
 			p.PUSI = false
 			p.CC = lastCC
 			sp.pkt = p
